@@ -13,6 +13,8 @@
 (*                "untrimmed" the read still starts with the ligated T                            *)
 (*   clip / clip3  soft-clipped bases at the 5' / 3' end of R1 (read orientation), n read length  *)
 (*   r2     "none" | "proper" (opposite strand) | "same" (same strand as R1; chic rejects it)     *)
+(*          | "unmapped" | "intercontig" (mate elsewhere; irrelevant for the site)                *)
+(*   contig name of the contig R1 maps to (part of the dedup key)                                 *)
 (*   opts   check_motif, allow_cycle_shift, no_cigar (no_umi_cigar_processing), invert_strand     *)
 (*                                                                                               *)
 (* Coordinate convention (taken from the code's own tests/data, not invented here):               *)
@@ -85,14 +87,14 @@ DeriveRead(s) == IF ~s.rev THEN FwdRead(s) ELSE MirrorRead(FwdRead(MirrorScn(s))
 
 FwdWellFormed(s) ==
     /\ s.L = Len(s.ref) /\ \A i \in DOMAIN s.ref : s.ref[i] \in Base
-    /\ s.clip >= 0 /\ s.clip3 >= 0 /\ s.clip + s.clip3 < s.n /\ s.n >= 5
+    /\ s.clip >= 0 /\ s.clip3 >= 0 /\ s.clip + s.clip3 < s.n /\ s.n >= 4
     /\ UStart(s) >= 0 /\ UStart(s) + s.n <= s.L /\ s.p >= 0 /\ s.p < s.L
     /\ s.proto = "nla" => /\ s.p + 4 <= s.L /\ Slice(s.ref, s.p, 4) = CATG
                           /\ s.kind \in {"ok", "mm", "lost", "extra"}
                           /\ s.kind = "mm" => s.mmpos \in 0 .. 3 /\ s.mmbase \in ReadBase /\ s.mmbase # CATG[s.mmpos + 1]
                           /\ s.kind = "extra" => s.xbase \in Base
-                          /\ s.r2 \in {"none", "proper"}
-    /\ s.proto = "chic" => s.kind \in {"trimmed", "untrimmed"} /\ s.r2 \in {"none", "proper", "same"}
+                          /\ s.r2 \in {"none", "proper", "unmapped", "intercontig"}
+    /\ s.proto = "chic" => s.kind \in {"trimmed", "untrimmed"} /\ s.r2 \in {"none", "proper", "same", "unmapped", "intercontig"}
 WellFormed(s) == s.proto \in {"nla", "chic"} /\ FwdWellFormed(IF s.rev THEN MirrorScn(s) ELSE s)
 
 ---------------------------------------------------------------------------------------------------
@@ -114,7 +116,7 @@ AcceptVerdict(name, s, o) ==
     ELSE IF o.ds \notin OkSites(s) THEN name \o "_site"
     ELSE IF ~o.has_rs \/ o.rs # TrueStrand(s) THEN name \o "_strand"
     ELSE IF ~o.hash.valid THEN "Inv_C09_DedupKey_missing"
-    ELSE IF o.hash.pos # o.ds \/ o.hash.sample # s.sample THEN "Inv_C09_DedupKey_site"
+    ELSE IF o.hash.pos # o.ds \/ o.hash.sample # s.sample \/ o.hash.chrom # s.contig THEN "Inv_C09_DedupKey_site"
     ELSE "ok"
 RejectVerdict(name, o) == IF o.has_ds \/ o.valid \/ o.hash.valid THEN name ELSE "ok"
 
@@ -230,7 +232,7 @@ ChicOpts == [check_motif : {TRUE}, allow_cycle_shift : {FALSE}, no_cigar : BOOLE
 
 Mk(proto, f, p, rv, k, c, c3, n, r2, o) ==
     [proto |-> proto, L |-> 24, ref |-> IF proto = "nla" THEN RefAt(f[1], f[2], p) ELSE ModelRef(f[1], f[2]), p |-> p, rev |-> rv, kind |-> k.kind, mmpos |-> k.mmpos,
-     mmbase |-> k.mmbase, xbase |-> k.xbase, clip |-> c, clip3 |-> c3, n |-> n, r2 |-> r2, opts |-> o, sample |-> "c1"]
+     mmbase |-> k.mmbase, xbase |-> k.xbase, clip |-> c, clip3 |-> c3, n |-> n, r2 |-> r2, opts |-> o, sample |-> "c1", contig |-> "chr1"]
 (* the bounded scenario space, enumerated by Init (one initial state per well-formed scenario) *)
 ChoosesNla(s) == "nla" \in Protos /\
     \E f \in Flanks, rv \in BOOLEAN, k \in NlaKinds, c \in 0 .. MaxClip, c3 \in Clip3s, n \in ReadLens,
@@ -307,7 +309,7 @@ ComputeHash(i) ==
     /\ Turn(i) /\ pc[i] = "sited"
     /\ LET f == frag[i]  v == ~f.qcfail /\ f.found IN
        frag' = [frag EXCEPT ![i].valid = v,
-                            ![i].hash = IF v THEN [valid |-> TRUE, strand |-> f.strand, css |-> f.css, chrom |-> "chr1",
+                            ![i].hash = IF v THEN [valid |-> TRUE, strand |-> f.strand, css |-> f.css, chrom |-> Scn(i).contig,
                                                    pos |-> f.loc, sample |-> Scn(i).sample]
                                         ELSE NoHash]
     /\ pc' = [pc EXCEPT ![i] = "done"]
